@@ -1,4 +1,4 @@
-(* Glue for C06/C07: the GC theorems of Proofs/GC.v composed at the level of [used] and [gc]. *)
+(* Glue for C06/C07: the GC theorems of Proofs/GC.v composed at the level of [used] and [gc_sweep]. *)
 From Coq Require Import List NArith Bool Arith Lia. Import ListNotations.
 From WV Require Import Gen.Ops Model.Common Model.IR Model.Arena Model.ModuleM Model.ParseM Model.EmitM Model.GC.
 From WV Require Proofs.GC.
